@@ -28,6 +28,126 @@ fn apply(o: &mut GeneratorOptions, name: &str, v: bool) {
     }
 }
 
+/// Specification -> implementation: every builder-call history TLC explored in MCOptions is applied
+/// to a real GeneratorOptions; the object must equal the canonical object of the option number the
+/// specification derives, is_tlsh_compatible must agree and finalizing fixed generators with it must
+/// give that option number's result.
+pub fn replay_opts(path: &str, out: &mut Out) -> u64 {
+    use serde_json::Value;
+    use tlsh::FuzzyHashType;
+    let img = |h: &tlsh::Tlsh| -> Vec<u8> {
+        let mut v = Vec::new();
+        v.extend_from_slice(h.checksum().data());
+        v.push(h.length().value());
+        v.push(h.qratios().value());
+        v.extend_from_slice(h.body().data());
+        v
+    };
+    // generators whose 32 results are not all alike: sparse 60 bytes, 30 bytes, 49 bytes, 300 mixed bytes
+    let inputs: Vec<Vec<u8>> = vec![
+        (0..60u8).map(|i| b"ABCDEFGHIJKLMNOPQRST"[(i % 20) as usize]).collect(),
+        (0..30u8).map(|i| i.wrapping_mul(37).wrapping_add(11)).collect(),
+        (0..49u8).map(|i| i.wrapping_mul(101).wrapping_add(7)).collect(),
+        (0..300u32).map(|i| (i.wrapping_mul(i).wrapping_mul(31).wrapping_add(i * 7) % 251) as u8).collect(),
+        (0..400u32).map(|i| b"abcabdabe"[(i % 9) as usize]).collect(),
+        (0..400u32).map(|i| b"abcd"[(i % 4) as usize]).collect(),
+        (0..100u32).map(|i| b"abcd"[(i % 4) as usize]).collect(),
+    ];
+    let mut gens: Vec<TlshGenerator> = inputs
+        .iter()
+        .map(|d| {
+            let mut g = TlshGenerator::new();
+            g.update(d);
+            g
+        })
+        .collect();
+    // an input of at least 256 bytes that is half-empty but not three-quarter-empty (searched: periods 4..40)
+    for p in 4..40usize {
+        let pat: Vec<u8> = (0..p).map(|i| ((i * i * 7 + i * 13 + p) % 251) as u8).collect();
+        let d: Vec<u8> = (0..400).map(|i| pat[i % p]).collect();
+        let mut g = TlshGenerator::new();
+        g.update(&d);
+        if matches!(g.finalize_with_options(&options(1)), Err(tlsh::GeneratorError::BucketsAreHalfEmpty)) && g.finalize_with_options(&options(9)).is_ok() {
+            gens.push(g);
+            break;
+        }
+    }
+    // a state with huge counters on which the legacy f32 and the pure-integer Q ratios differ (through the hook)
+    let mut x = 0x9e3779b97f4a7c15u64;
+    for _ in 0..400 {
+        let mut g = TlshGenerator::new();
+        g.update(&inputs[3]);
+        let mut st = g.verif_export();
+        for b in st.buckets.iter_mut().take(128) {
+            x ^= x << 13;
+            x ^= x >> 7;
+            x ^= x << 17;
+            *b = (1u32 << 24) + (x % ((1u64 << 31) - (1u64 << 24))) as u32;
+        }
+        g.verif_import(&st);
+        let a = g.finalize_with_options(&options(0)).map(|h| img(&h)).map_err(|e| format!("{:?}", e));
+        let b = g.finalize_with_options(&options(2)).map(|h| img(&h)).map_err(|e| format!("{:?}", e));
+        if a.is_ok() && b.is_ok() && a != b {
+            gens.push(g);
+            break;
+        }
+    }
+    let fans: Vec<Vec<HRes>> = gens
+        .iter()
+        .map(|g| (0..32u8).map(|o| g.finalize_with_options(&options(o)).map(|h| img(&h)).map_err(|e| format!("{:?}", e))).collect())
+        .collect();
+    let text = std::fs::read_to_string(path).expect("replay file");
+    let (mut bad, mut n) = (0u64, 0u64);
+    for (ln, line) in text.lines().enumerate() {
+        if line.trim().is_empty() {
+            continue;
+        }
+        let j: Value = serde_json::from_str(line).expect("replay line is JSON");
+        let num = j["n"].as_u64().unwrap() as u8;
+        let mut why: Vec<String> = Vec::new();
+        let mut o = GeneratorOptions::new();
+        for c in j["calls"].as_array().unwrap() {
+            let (name, v) = (c[0].as_str().unwrap().to_string(), c[1].as_bool().unwrap());
+            let m = obs(|| apply(&mut o, &name, v));
+            if !m.p.is_empty() {
+                why.push(format!("panic: {}", m.p));
+            }
+        }
+        if o != options(num) {
+            why.push(format!("not equal to the canonical object of option number {}", num));
+        }
+        if (o == GeneratorOptions::new()) != (num == 2) || (o == GeneratorOptions::default()) != (num == 2) {
+            why.push("equality with new() / default() differs".into());
+        }
+        if o.is_tlsh_compatible() != j["compatible"].as_bool().unwrap() {
+            why.push("is_tlsh_compatible differs".into());
+        }
+        for (g, fan) in gens.iter().zip(fans.iter()) {
+            let got = g.finalize_with_options(&o).map(|h| img(&h)).map_err(|e| format!("{:?}", e));
+            if got != fan[num as usize] {
+                why.push(format!("finalize differs from the result of option number {}", num));
+                break;
+            }
+        }
+        n += 1;
+        if !why.is_empty() {
+            bad += 1;
+            out.emit(Ev::new("replay_mismatch").num("line", ln as i64 + 1).str("why", &why.join("; ")).raw("step", line));
+        }
+    }
+    // non-vacuity of the fixed generators: the fans must tell option numbers apart
+    let mut classes: std::collections::BTreeMap<String, Vec<usize>> = std::collections::BTreeMap::new();
+    for o in 0..32usize {
+        classes.entry(fans.iter().map(|f| res_json(&f[o])).collect::<Vec<_>>().join("|")).or_default().push(o);
+    }
+    let cj = classes.values().map(|c| format!("{:?}", c)).collect::<Vec<_>>().join(",");
+    out.emit(
+        Ev::new("replay_done").num("steps", n as i64).num("mismatches", bad as i64)
+            .num("distinct_fan_columns", classes.len() as i64).raw("fan_classes", &format!("[{}]", cj)),
+    );
+    bad
+}
+
 pub fn run(out: &mut Out, rng: &mut Rng, thorough: bool) {
     use tlsh::FuzzyHashType;
     // a fixed generator whose 32 results are not all alike: 60 bytes, sparse
